@@ -45,6 +45,7 @@ func raceChild(args []string) {
 					rb.AddWarcHeader("Content-Type", "text/plain")
 					rb.AddWarcHeader("WARC-Target-URI", "http://example.com/")
 					rb.AddWarcHeader("WARC-Date", "2020-01-01T00:00:00Z")
+					rb.AddWarcHeader(fmt.Sprintf("x-custom-note-%d-%d", g, i), "v") // a name outside the table, not in canonical spelling
 					_, _ = rb.Write(bytes.Repeat([]byte("x"), 100+g))
 					if rec, _, err := rb.Build(); err == nil {
 						_ = rec.Close()
@@ -80,8 +81,11 @@ func raceChild(args []string) {
 				u := gowarc.NewUnmarshaler()
 				for i := 0; i < 20; i++ {
 					kind := []string{"resource", "http", "wf", "revisit"}[(g+i)%4]
-					rec, _, _, err := u.Unmarshal(bufio.NewReader(bytes.NewReader(recordBytes(kind, 40+i))))
+					data := recordBytes(kind, 40+i)
+					data = bytes.Replace(data, []byte("WARC-Date:"), []byte(fmt.Sprintf("x-seen-by-%d-%d: u\r\nWARC-Date:", g, i)), 1)
+					rec, _, _, err := u.Unmarshal(bufio.NewReader(bytes.NewReader(data)))
 					if err == nil && rec != nil {
+						_ = rec.WarcHeader().Get(fmt.Sprintf("x-other-%d", g))
 						_ = rec.Close()
 					}
 				}
